@@ -1944,22 +1944,20 @@ func (k *Kernel) handleReplayedHeader(
 		))
 	}
 
-	for proof.Round > s.Voting.Round {
-		// Later round than we expected.
-		// Each jump moves the voting view one round ahead,
-		// so keep jumping until the voting round is the replayed round:
-		// the replayed precommits must be filed under the round they were signed for.
-		if err := k.jumpVotingRound(ctx, s, proof.Round); err != nil {
-			return tmelink.ReplayedHeaderInternalError{
-				Err: fmt.Errorf(
-					"failed to jump voting round to replayed round: %w",
-					err,
-				),
-			}
-		}
-	}
-
+	// A later round than we expected is fine,
+	// but we only move the voting view there once the header and its proof have been validated:
+	// a replay we reject must leave the mirror as it was.
 	h, r := header.Height, proof.Round
+
+	// The precommits we already hold for the replayed round,
+	// if it is a round we have a view for.
+	var havePrecommits map[string]gcrypto.CommonMessageSignatureProof
+	switch r {
+	case s.Voting.Round:
+		havePrecommits = s.Voting.PrecommitProofs
+	case s.NextRound.Round:
+		havePrecommits = s.NextRound.PrecommitProofs
+	}
 
 	// We might have a valid header.
 	// Confirm the hash first,
@@ -2035,8 +2033,14 @@ func (k *Kernel) handleReplayedHeader(
 	// so we will work with a clone of the existing precommit proofs, if we have any.
 	tempProofs := make(map[string]gcrypto.CommonMessageSignatureProof, len(proof.Proofs))
 	for hash, sparseSigs := range proof.Proofs {
+		if len(sparseSigs) == 0 {
+			// An entry without signatures carries nothing,
+			// and an empty signature list must not reach the round store.
+			continue
+		}
+
 		// First, set up the local copy of the proof.
-		haveProof := s.Voting.PrecommitProofs[hash]
+		haveProof := havePrecommits[hash]
 		if haveProof == nil {
 			// No precommit data exists, so build it.
 			precommitContent, err := tmconsensus.PrecommitSignBytes(
@@ -2107,6 +2111,53 @@ func (k *Kernel) handleReplayedHeader(
 		}
 	}
 
+	// Now ensure we have majority vote power,
+	// otherwise the replay cannot proceed.
+	var blockPow uint64
+	var bs bitset.BitSet
+	headerProof := tempProofs[string(header.Hash)]
+	if headerProof == nil {
+		return tmelink.ReplayedHeaderValidationError{
+			Err: fmt.Errorf(
+				"commit proof contains no precommits for the replayed header's hash %x",
+				header.Hash,
+			),
+		}
+	}
+	headerProof.SignatureBitSet(&bs)
+	for i, ok := bs.NextSet(0); ok && int(i) < len(header.ValidatorSet.Validators); i, ok = bs.NextSet(i + 1) {
+		blockPow += header.ValidatorSet.Validators[int(i)].Power
+	}
+
+	// Arguably we could update the precommit proofs now;
+	// they are valid but insufficient to commit.
+	// We are not doing that now because it still indicates
+	// an improper block replay source.
+
+	maj := tmconsensus.ByzantineMajority(s.Voting.VoteSummary.AvailablePower)
+	if blockPow < maj {
+		return tmelink.ReplayedHeaderValidationError{
+			Err: fmt.Errorf(
+				"needed at least %d vote power for block with hash %x, but only got %d",
+				maj, header.Hash, blockPow,
+			),
+		}
+	}
+
+	// The replay is valid. Move the voting view to the replayed round:
+	// each jump moves it one round ahead,
+	// and the replayed precommits must be filed under the round they were signed for.
+	for proof.Round > s.Voting.Round {
+		if err := k.jumpVotingRound(ctx, s, proof.Round); err != nil {
+			return tmelink.ReplayedHeaderInternalError{
+				Err: fmt.Errorf(
+					"failed to jump voting round to replayed round: %w",
+					err,
+				),
+			}
+		}
+	}
+
 	// Now the voting view matches the height and round of the incoming replayed proof.
 	// It is possible that we already saw the incoming header and got stuck leading to a replay.
 	// Make sure we have only one copy.
@@ -2141,39 +2192,6 @@ func (k *Kernel) handleReplayedHeader(
 		}
 
 		s.Voting.ProposedHeaders = append(s.Voting.ProposedHeaders, fakePH)
-	}
-
-	// Now ensure we have majority vote power,
-	// otherwise the replay cannot proceed.
-	var blockPow uint64
-	var bs bitset.BitSet
-	headerProof := tempProofs[string(header.Hash)]
-	if headerProof == nil {
-		return tmelink.ReplayedHeaderValidationError{
-			Err: fmt.Errorf(
-				"commit proof contains no precommits for the replayed header's hash %x",
-				header.Hash,
-			),
-		}
-	}
-	headerProof.SignatureBitSet(&bs)
-	for i, ok := bs.NextSet(0); ok && int(i) < len(header.ValidatorSet.Validators); i, ok = bs.NextSet(i + 1) {
-		blockPow += header.ValidatorSet.Validators[int(i)].Power
-	}
-
-	// Arguably we could update the precommit proofs now;
-	// they are valid but insufficient to commit.
-	// We are not doing that now because it still indicates
-	// an improper block replay source.
-
-	maj := tmconsensus.ByzantineMajority(s.Voting.VoteSummary.AvailablePower)
-	if blockPow < maj {
-		return tmelink.ReplayedHeaderValidationError{
-			Err: fmt.Errorf(
-				"needed at least %d vote power for block with hash %x, but only got %d",
-				maj, header.Hash, blockPow,
-			),
-		}
 	}
 
 	// Store the updated proofs back into the long-lived local set.
